@@ -146,6 +146,7 @@ func (c *syncMap) deleteExpired(before time.Time) {
 	c.data.Range(func(key, value interface{}) bool {
 		cacheEntry := value.(*TraitEntry) //nolint // Panic on type assertion failure is fine here.
 		if e := atomic.LoadInt64(&cacheEntry.E); e != 0 && e < beforeTS {
+			verifPoint("syncmap.cleanup.before-delete", key)
 			c.deleteEntry(key, value)
 		}
 
